@@ -249,6 +249,8 @@ pub trait ReadableVec<I: VecIndex, T: VecValue>: AnyVec {
     /// Collects values in `[from, to)` into a `Vec<T>` (object-safe).
     #[inline]
     fn collect_range_dyn(&self, from: usize, to: usize) -> Vec<T> {
+        // Clamp before sizing the buffer: `to` may be far beyond the length (e.g. usize::MAX for "to the end").
+        let to = to.min(self.len());
         let mut buf = Vec::with_capacity(to.saturating_sub(from));
         self.read_into_at(from, to, &mut buf);
         buf
